@@ -53,7 +53,22 @@ func (r *Reader) Close() {
 const CheckpointName = "redis-gunyu-checkpoint"
 
 func RedisCfg(addr string) config.RedisConfig {
-	return config.RedisConfig{Addresses: []string{addr}, Type: config.RedisTypeStandalone, Otype: config.RedisTypeStandalone, Version: "7.2.0"}
+	return RedisCfgN([]string{addr})
+}
+
+// RedisCfgN: a standalone configuration with the topology filled in the way redis.FixTopology does.
+func RedisCfgN(addrs []string) config.RedisConfig {
+	c := config.RedisConfig{Addresses: addrs, Type: config.RedisTypeStandalone, Otype: config.RedisTypeStandalone, Version: "7.2.0",
+		ClusterOptions: &config.RedisClusterOptions{HandleMoveErr: true, HandleAskErr: true}}
+	var shards []*config.RedisClusterShard
+	for _, a := range addrs {
+		shards = append(shards, &config.RedisClusterShard{
+			Slots:  config.RedisSlots{Ranges: []config.RedisSlotRange{{Left: 0, Right: 16383}}},
+			Master: config.RedisNode{Address: a, Role: config.RedisRoleMaster, Health: "online"},
+		})
+	}
+	c.SetClusterShards(shards)
+	return c
 }
 
 // OutputConfig builds the RedisOutputConfig the way syncer.newOutput does.
